@@ -118,6 +118,30 @@ async function do_query_endless(req) {
     return {out: clean(out), error: error, exceeded: exceeded, pulled: it.pulled, finishes: finishes};
 }
 
+async function do_query_shared_sequence(req) {
+    // the caller's table objects are created once and handed to every query of the sequence; between queries the caller edits them.
+    // Every query is also run on fresh deep copies of the current content: the two results must be equal.
+    let A = req.A, B = req.B;
+    let results = [];
+    for (let step of req.steps) {
+        if (step.mutate) {
+            let T = step.mutate.table == 'A' ? A : B;
+            if (step.mutate.op == 'replace-row') T[step.mutate.row] = step.mutate.value;
+            else if (step.mutate.op == 'edit-cell') T[step.mutate.row][step.mutate.col] = step.mutate.value;
+            else if (step.mutate.op == 'push-row') T.push(step.mutate.value);
+            else if (step.mutate.op == 'pop-row') T.pop();
+            else if (step.mutate.op == 'swap-rows') { let t = T[0]; T[0] = T[T.length - 1]; T[T.length - 1] = t; }
+        }
+        if (step.query) {
+            let one = async (a, b) => { let out = [], w = [], err = null; try { await rbql.query_table(step.query, a, out, w, b, null, null, null, true, ''); } catch (e) { err = err_info(e); } return {out: clean(out), warnings: w, error: err}; };
+            let shared = await one(A, B);
+            let fresh = await one(JSON.parse(JSON.stringify(A)), JSON.parse(JSON.stringify(B)));
+            results.push({query: step.query, shared: shared, fresh: fresh, A: clean(A), B: clean(B)});
+        }
+    }
+    return {results: results};
+}
+
 function bufs_from(hex, cuts) {
     let data = Buffer.from(hex, 'hex');
     let pieces = [];
@@ -181,7 +205,21 @@ async function read_file_stream(file_path, cfg) {
     }
 }
 
+function summarize(res, req) {
+    // huge results are not shipped: count, digest and a few records
+    if (res.error !== null || res.records === null) return res;
+    let h = require('crypto').createHash('sha1');
+    for (let r of res.records) h.update(JSON.stringify(r) + '\n');
+    let idx = (req.at_indices || []).filter(i => i < res.records.length);
+    return {records: null, header: res.header, warnings: res.warnings, error: null, n_records: res.records.length, sha1: h.digest('hex'),
+            first: res.records[0], last: res.records[res.records.length - 1], at: idx.map(i => res.records[i])};
+}
+
 async function do_read_csv(req) {
+    if (req.summary) {
+        let r2 = Object.assign({}, req, {summary: false});
+        return summarize(await do_read_csv(r2), req);
+    }
     if (req.mode === 'bulk') return await read_bulk(req.path, req);
     if (req.mode === 'file') return await read_file_stream(req.path, req);
     if (req.mode === 'file-pieces') {
@@ -308,6 +346,7 @@ async function handle(req) {
         case 'ping': return {pong: true, node: process.version, repo: REPO};
         case 'query_table': return await do_query_table(req);
         case 'query_endless': return await do_query_endless(req);
+        case 'query_shared_sequence': return await do_query_shared_sequence(req);
         case 'query_batch': {
             let results = [];
             for (let r of req.items) results.push(await do_query_table(r));
